@@ -1,5 +1,4 @@
 package main
 
-func runSched(tr *Tracer, s *Scenario) bool { panic("sched: not implemented") }
 func runKV(tr *Tracer, s *Scenario) bool    { panic("kv: not implemented") }
 func runOrder(tr *Tracer, s *Scenario) bool { panic("order: not implemented") }
